@@ -33,7 +33,10 @@ Record ue_obs := mkUobs {
 
 Record obs := mkObs {
   ob_status : Z; ob_ref : list Z; ob_seq : Z; ob_muis : list (Z * Z * bool);
-  ob_quotas : list Z; ob_ues : list ue_obs; ob_lrsn : Z; ob_notes : list (Z * Z * Z) }.
+  ob_quotas : list Z;
+  ob_ues : list ue_obs;      (* the subscriber contexts whose observation changed at this step (all of them at the last step) *)
+  ob_nues : Z;               (* how many subscriber contexts the CHF holds *)
+  ob_lrsn : Z; ob_notes : list (Z * Z * Z) }.
 
 Definition entry_eqb (a b : entry) : bool :=
   let '(a1, a2, a3, a4, a5, a6) := a in let '(b1, b2, b3, b4, b5, b6) := b in
@@ -77,15 +80,18 @@ Definition ue_codes (u : uectx) (o : ue_obs) : list Z :=
   (if cdrmap_eqb (u_cdr u) (uo_cdr o) then [] else [6]) ++
   (if list_eqb (fun r o => rsize r =? ro_berlen o) (u_records u) (uo_records o) then [] else [8]).
 
+(* an observation with ob_lrsn = -1 carries the answer only (a request served inside a concurrent
+   burst: the state is observed once, after the burst) *)
 Definition compare (w : world) (r : resp) (o : obs) : list Z :=
   (if (rs_status r =? ob_status o) && str_eqb (rs_ref r) (ob_ref o) && (rs_seq r =? ob_seq o) then [] else [1]) ++
   (if list_eqb mui_eqb (rs_mui r) (ob_muis o) then [] else [2]) ++
+  if ob_lrsn o =? -1 then [] else
   (if quotas_eqb (w_db w) (ob_quotas o) then [] else [3]) ++
   flat_map (fun uo => match find_ue (w_ues w) (uo_supi uo) with
                       | Some u => ue_codes u uo
                       | None => [4; 5; 6]
                       end) (ob_ues o) ++
-  (if Nat.eqb (length (w_ues w)) (length (ob_ues o)) then [] else [4]) ++
+  (if Z.of_nat (length (w_ues w)) =? ob_nues o then [] else [4]) ++
   (if list_eqb (fun a b => let '(a1, a2, a3) := a in let '(b1, b2, b3) := b in (a1 =? b1) && (a2 =? b2) && (a3 =? b3))
                (w_notes w) (ob_notes o) then [] else [7]) ++
   (if w_lrsn w =? ob_lrsn o then [] else [9]).
